@@ -69,6 +69,9 @@ def typed_shapes(valid):
     return out
 
 
+_ORACLE_CONVERTER = None
+
+
 def structuring_oracle(method, rid, params):
     """Does the request structure as the type lsprotocol registers for the method?  (cattrs is an oracle:
     DESIGN section 2.)  -> "ok" | "badv" (ClassValidationError) | "bado" (anything else)"""
@@ -77,8 +80,11 @@ def structuring_oracle(method, rid, params):
     d = {"jsonrpc": "2.0", "id": rid, "method": method}
     if not (isinstance(params, str) and params == "absent"):
         d["params"] = params
+    global _ORACLE_CONVERTER
+    if _ORACLE_CONVERTER is None:
+        _ORACLE_CONVERTER = converters.get_converter()
     try:
-        converters.get_converter().structure(d, types.METHOD_TO_TYPES[method][0])
+        _ORACLE_CONVERTER.structure(d, types.METHOD_TO_TYPES[method][0])
     except ClassValidationError:
         return "badv"
     except Exception:
@@ -86,6 +92,9 @@ def structuring_oracle(method, rid, params):
     return "ok"
 
 
+# the public shapes through which a requester can observe the outcome of a request
+REQ_SHAPES = ("future", "callback", "await", "gen-server", "gen-client")   # the last two: generated *_async methods
+REQ_SHAPES_ANY_METHOD = ("future", "callback", "await")                     # usable with an arbitrary method
 # shapes of "any other exception": (name, needs python feature)
 OTHER_SHAPES = ("note1", "notes3", "note-nonascii", "multiline", "syntax", "syntaxloc", "group", "noargs",
                 "intarg", "tuplearg", "ownstr", "chained", "subclass")
@@ -160,7 +169,8 @@ class C07(core.Property):
                    "triple_preserved", "server_side_codes", "server_side_generic", "C07_partial", "C07_refuted_wide_code", "C07_refuted",
                    "C07_reference_agrees", "C07_nonvacuous", "C07_code_zero_empty_message",
                    "at_most_one_class_supports", "has_server_range_current", "server_classes_ok_current",
-                   "table_ok_needed", "spec_requester_chosen", "server_range_only"]
+                   "table_ok_needed", "spec_requester_chosen", "server_range_only",
+                   "session_replies_map", "session_meets", "C07_session"]
     coq_targets = ["Props/C07.vo", "Extract/ExtractC07.vo"]
     rule = ("requester side: every code in [-33000,-31000] + boundaries + seeded random 64-bit codes, each through "
             "from_error directly and through send_request / error response / structure_message / handle_message; "
@@ -235,7 +245,7 @@ class C07(core.Property):
             # from_error over the wire (the frame is rejected), they are exercised directly
             w = c if I32[0] <= c <= I32[1] else rng.randrange(I32[0], I32[1] + 1)
             cases.append({"k": "from", "via": "wire", "code": w, "msg": m, "data": d,
-                          "null": bool(d == 0 and i % 4 == 0)})
+                          "null": bool(d == 0 and i % 4 == 0), "req": REQ_SHAPES[i % len(REQ_SHAPES)]})
         # --- constructors and the round trip through to_response_error / from_error
         for r in rows:
             opts_c = [None, 0, r["code"] if r["code"] is not None else -32050, -32000, -32099, -32100, -31999, 5]
@@ -257,8 +267,11 @@ class C07(core.Property):
             nid[0] += 1
             rid = nid[0] if nid[0] % 7 else f"r{nid[0]}"
             c = {"k": "srv", "id": rid, "method": "c07/x", "p": "ok", "target": ["feature", "sync"],
-                 "cancel": False, "outcome": ["ret"], "ps": (nid[0] * 7) % len(PSHAPES)}
+                 "cancel": False, "outcome": ["ret"], "ps": (nid[0] * 7) % len(PSHAPES),
+                 "req": REQ_SHAPES_ANY_METHOD[nid[0] % 3]}
             c.update(kw)
+            if c.pop("_keep", False):
+                return c
             cases.append(c)
         def rpc_outcome(r, variant):
             code = None if r["code"] is not None else -32050
@@ -340,27 +353,56 @@ class C07(core.Property):
                 else:
                     tg = ["unknown"]
                 srv(method=meth, typed=meth, tparams=shp, p=verdict, target=tg)
-        # requests and replies through REAL framed byte streams on both ends (io_.run_async reading what the
-        # other endpoint wrote): non-ASCII text in messages, data and method names must survive the framing
+        # SESSIONS over REAL framed byte streams on both ends (io_.run_async reading what the other endpoint
+        # wrote): several requests on one connection, bodies of different lengths, in every order of
+        #   B undecodable params / U unknown method / P handler raising a pygls exception /
+        #   X handler raising another exception / G a request that is answered with a result
+        # with non-ASCII text (2-, 3-, 4-byte characters) in messages, data and method names
+        import itertools
         wide = "caf\u00e9 \u20ac \u4e2d \U0001F60B"
-        for via in ("feature", "command"):
-            for kind in KINDS:
-                srv(stream=True, target=[via, kind], outcome=["ret"])
-                srv(stream=True, target=[via, kind], outcome=["unser"])
-                for i, r in enumerate(rows):
-                    code = None if r["code"] is not None else -32050
-                    if r["ctor"][0] == "range_checked":
-                        code = r["ctor"][1] + i
-                    srv(stream=True, target=[via, kind],
-                        outcome=["rpc", r["name"], cps(MSGS[2] if i % 2 else wide), code, len(PAYLOADS) - 1 if i % 3 else 9])
-                srv(stream=True, target=[via, kind], outcome=["rpc", rows[1]["name"], cps("ascii only"), None, 8])
-                for t in ("ValueError", "KeyError", "note-nonascii", "multiline", "ownstr", "group"):
-                    srv(stream=True, target=[via, kind], outcome=["other", t, cps(wide)])
-                if kind != "sync":
-                    srv(stream=True, target=[via, kind], cancel=True, outcome=["ret"])
-        for meth in ("zz/plain", "zz/" + wide):
-            srv(stream=True, method=meth, target=["unknown"])
-        srv(stream=True, target=["unkcmd", cps("nope-" + wide)])
+        vias = ("feature", "command")
+        tshapes = ["absent", None, 0, True, "x", [1], {}, {"wrong": 1}, dict(VALID_POSITION, position={"line": "x"})]
+        def piece(kindc, n):
+            kind, via, r = KINDS[n % 3], vias[(n // 3) % 2], rows[n % len(rows)]
+            if kindc == "B":
+                meth = list(TYPED)[n % 3]
+                tp = tshapes[n % len(tshapes)]
+                if structuring_oracle(meth, 1, tp) != "badv":
+                    tp = "absent"
+                return srv(_keep=True, method=meth, typed=meth, tparams=tp, p="badv", target=["unknown"])
+            if kindc == "U":
+                return srv(_keep=True, method=("zz/" + wide * (n % 3)) if n % 2 else "zz/u%d" % n, target=["unknown"])
+            if kindc == "P":
+                code = None if r["code"] is not None else -32050
+                if r["ctor"][0] == "range_checked":
+                    code = r["ctor"][1] + n % 50
+                return srv(_keep=True, target=[via, kind],
+                           outcome=["rpc", r["name"], cps([wide, MSGS[2], "ascii", ""][n % 4]), code,
+                                    [len(PAYLOADS) - 1, 9, 8, 0][(n // 2) % 4]])
+            if kindc == "X":
+                t = ("ValueError", "KeyError", "note-nonascii", "multiline", "ownstr", "group", "notes3")[n % 7]
+                return srv(_keep=True, target=[via, kind], outcome=["other", t, cps(wide if n % 2 else "boom")])
+            if kindc == "C":
+                return srv(_keep=True, target=[via, KINDS[1 + n % 2]], cancel=True, outcome=["ret"])
+            if kindc == "S":
+                return srv(_keep=True, target=[via, kind], outcome=["unser"])
+            return srv(_keep=True, target=[via, kind], outcome=["ret"])
+        perms = list(itertools.permutations("BUPXG"))
+        if chk.quick:
+            perms = perms[::2]
+        n = 0
+        for pm in perms:
+            msgs = []
+            for ch in pm:
+                n += 1
+                msgs.append(piece(ch, n))
+            cases.append({"k": "session", "msgs": msgs})
+        for extra in ("BCG", "CBSU", "SBPBXBG", "BBBG", "UCXSP", "GBGBG"):
+            msgs = []
+            for ch in extra:
+                n += 1
+                msgs.append(piece(ch, n))
+            cases.append({"k": "session", "msgs": msgs})
         for meth in BAD_METHODS:
             for shape in range(4):
                 srv(method=meth, p="badv", shape=shape, target=["feature", "sync"])
@@ -460,6 +502,11 @@ class C07(core.Property):
             return f"from {enc_z(c['code'])} {enc_str(c['msg'])} {enc_opt(None if c['data'] == 0 else c['data'], str)}"
         if k == "ctor":
             return "ctor " + self._enc_exc(c["cls"], c["msg"], c["code"], c["data"])
+        if k == "session":
+            return f"session {len(c['msgs'])} " + " ".join(self._srv_line(m) for m in c["msgs"])
+        return "srv " + self._srv_line(c)
+
+    def _srv_line(self, c):
         p = {"ok": 0, "badv": 1, "bado": 2}[c["p"]]
         t = c["target"]
         if t[0] == "unknown":
@@ -479,7 +526,7 @@ class C07(core.Property):
             oc = "1 " + self._enc_exc(o[1], o[2], o[3], o[4])
         else:
             oc = "2 " + enc_str(o[2])
-        return (f"srv {enc_str(cps(c['method']))} {enc_str(cps(str(c['id'])))} {p} {tg} "
+        return (f"{enc_str(cps(c['method']))} {enc_str(cps(str(c['id'])))} {p} {tg} "
                 f"{1 if c['cancel'] else 0} {oc}")
 
     def model_output(self, c, toks):
@@ -519,7 +566,19 @@ class C07(core.Property):
                 if own and sc != c["cls"]:
                     s2 = ["class-lost"]     # cannot happen when the proofs hold
             return {"M": [m1, m2], "S": [s1, s2], "guard": True, "klass": "constructor"}
-        # srv
+        if k == "session":
+            n = t.int()
+            parts = [self._parse_srv(m, t) for m in c["msgs"][:n]]
+            return {"M": [x["M"] for x in parts], "S": [x["S"] if x["S"] is not None else "*" for x in parts],
+                    "guard": all(x["guard"] for x in parts), "klass": "session"}
+        return self._parse_srv(c, t)
+
+    def _parse_srv(self, c, t):
+        data = lambda d: 0 if d is None else d
+        def fix(o):
+            if o[0] == "ok":
+                o[4] = data(o[4])
+            return o
         kind = t.int()
         if kind == 0:
             M = [["broken"], ["none"]]
@@ -574,6 +633,9 @@ class C07(core.Property):
     def same(self, c, impl, M):
         if c["k"] == "tables":
             return impl[0] == M[0] and impl[1] == M[1]
+        if c["k"] == "session":
+            return (isinstance(impl, list) and len(impl) == len(M) == len(c["msgs"]) and
+                    all(self.same(m, i, x) for m, i, x in zip(c["msgs"], impl, M)))
         if c["k"] != "srv":
             return impl == M
         if impl[0][0] == "raise" or len(impl) != 2:
@@ -594,7 +656,7 @@ class C07(core.Property):
             return c["code"] not in exact
         if c["k"] == "srv":
             return len(c["target"]) > 1 and c["target"][1] in ("async", "thread")
-        return c["k"] == "ctor"
+        return c["k"] in ("ctor", "session")
 
     def shrink(self, c):
         if c["k"] in ("from", "ctor"):
@@ -607,6 +669,11 @@ class C07(core.Property):
             if c["k"] == "from" and c.get("null"):
                 d = dict(c); d["null"] = False
                 yield d
+        elif c["k"] == "session":
+            for i in range(len(c["msgs"])):       # one message less; a single message as a last resort
+                if len(c["msgs"]) > 1:
+                    d = dict(c); d["msgs"] = c["msgs"][:i] + c["msgs"][i + 1:]
+                    yield d
         elif c["k"] == "srv":
             o = c["outcome"]
             if o[0] == "rpc":
@@ -637,8 +704,10 @@ class C07(core.Property):
         d = {}
         for c in cases:
             key = c["k"]
-            if key == "from":
-                key += "/" + c["via"] + ("/range" if -33000 <= c["code"] <= -31000 else "/far")
+            if key == "session":
+                key += "/%d" % len(c["msgs"])
+            elif key == "from":
+                key += "/" + c["via"] + ("/" + c.get("req", "future") if c["via"] == "wire" else "") + ("/range" if -33000 <= c["code"] <= -31000 else "/far")
             elif key == "srv":
                 key += "/" + c["p"] + "/" + "/".join(map(str, c["target"][:2] if c["target"][0] != "unkcmd" else ["unkcmd"]))
                 key += "/" + ("cancel" if c["cancel"] else c["outcome"][0])
@@ -676,9 +745,16 @@ class PipeWriter:
     """Records what an endpoint writes and hands the bytes to the peer's StreamReader."""
     def __init__(self, rec, reader, loop, loop_thread):
         self.rec, self.reader, self.loop, self.loop_thread = rec, reader, loop, loop_thread
+        self.patch = None          # one-shot: rewrites the next frame (a peer sending something else)
     def write(self, data):
         import threading
         data = bytes(data)
+        if self.patch is not None:
+            fn, self.patch = self.patch, None
+            obj = framed_json(data)
+            if obj is not None:
+                body = json.dumps(fn(obj)).encode("utf-8")
+                data = b"Content-Length: %d\r\n\r\n" % len(body) + body
         self.rec.frames.append(data)
         if threading.current_thread() is self.loop_thread:
             self.reader.feed_data(data)
@@ -791,6 +867,62 @@ def other_exception(kind, text):
     return e, [str(e)]
 
 
+class Ask:
+    """One request made through one of the public requester shapes; `obs()` is what the caller of that
+    shape ends up with: the exception (class, code, message, data), a result, or - after a bounded number
+    of loop turns - "pending" (the requester never completed)."""
+    def __init__(self, env, shape, method, params, rid):
+        self.env, self.shape, self.rid, self.called = env, shape, rid, []
+        self.fut = self.task = None
+        self.proto = env.req.protocol
+        t = env.types
+        if shape == "future":
+            self.fut = self.proto.send_request(method, params, msg_id=rid)
+        elif shape == "callback":
+            self.fut = self.proto.send_request(method, params, callback=self.called.append, msg_id=rid)
+        else:
+            rec = env.rw
+            if shape == "await":
+                coro = self.proto.send_request_async(method, params, msg_id=rid)
+            elif shape == "gen-server":
+                coro = env.req.workspace_configuration_async(t.ConfigurationParams(items=[]))
+            else:
+                self.proto, rec = env.client.protocol, env.cw
+                coro = env.client.text_document_hover_async(t.HoverParams(
+                    text_document=t.TextDocumentIdentifier(uri="file:///c07.txt"), position=t.Position(0, 0)))
+            n = len(rec.frames)
+            async def go():
+                return await coro
+            self.task = env.loop.create_task(go())
+            env.turns(lambda: len(rec.frames) > n, 20)
+            if shape != "await":                       # the generated helpers choose the id themselves
+                self.rid = json.loads(body_of(rec.frames[n]))["id"]
+
+    def done(self):
+        return self.task.done() if self.task is not None else self.fut.done()
+
+    def obs(self):
+        env = self.env
+        if self.task is not None:
+            env.turns(self.task.done, 30)              # bounded: the copy to the awaited future takes a few turns
+            if not self.task.done():
+                self.task.cancel()
+                env.turns(self.task.done, 10)
+                forget(self.proto, self.rid)
+                return ["pending"]
+            if self.task.cancelled():
+                return ["pending"]
+            ex = self.task.exception()
+        else:
+            if not self.fut.done():
+                forget(self.proto, self.rid)
+                return ["pending"]
+            ex = self.fut.exception(timeout=0)
+        if self.called:
+            return ["callback-called" if ex is not None else "result"]
+        return ["result"] if ex is None else env.obs_exc(ex)
+
+
 class Env:
     """Two real endpoints in one process: `srv` answers, `req` asks."""
     def __init__(self, rows):
@@ -807,9 +939,12 @@ class Env:
         self.srv = LanguageServer("c07-server", "1")
         self.req = LanguageServer("c07-requester", "1")
         priv.set_thread_pool(self.srv, ThreadPoolExecutor(max_workers=1))   # one worker: a queued job can be cancelled
-        self.sw, self.rw = Recorder(), Recorder()
+        from pygls.lsp.client import LanguageClient
+        self.client = LanguageClient("c07-client", "1")
+        self.sw, self.rw, self.cw = Recorder(), Recorder(), Recorder()
         self.srv.protocol.set_writer(self.sw)
         self.req.protocol.set_writer(self.rw)
+        self.client.protocol.set_writer(self.cw)
         self.plan = {}
         self.current = None
         self.gates = {}
@@ -875,12 +1010,13 @@ class Env:
         me = self.threading.current_thread()
         tasks = [self.loop.create_task(run_async(stop, to_srv, sp, None, quiet)),
                  self.loop.create_task(run_async(stop, to_req, rp, None, quiet))]
-        rp.set_writer(PipeWriter(self.rw, to_srv, self.loop, me))
+        rwriter = PipeWriter(self.rw, to_srv, self.loop, me)
+        rp.set_writer(rwriter)
         sp.set_writer(PipeWriter(self.sw, to_req, self.loop, me))
-        return (to_srv, to_req, stop, tasks)
+        return (to_srv, to_req, stop, tasks, rwriter)
 
     def close_streams(self, pipes):
-        to_srv, to_req, stop, tasks = pipes
+        to_srv, to_req, stop, tasks = pipes[:4]
         self.srv.protocol.set_writer(self.sw)
         self.req.protocol.set_writer(self.rw)
         self.loop.run_until_complete(self.asyncio.sleep(0))     # pending thread-safe feeds
@@ -919,6 +1055,14 @@ class Env:
             time.sleep(0.0002)
         return True
 
+    def turns(self, cond, n):
+        """At most n turns of the loop (no wall-clock wait) until cond()."""
+        for _ in range(n):
+            if cond():
+                return True
+            self.loop.run_until_complete(self.asyncio.sleep(0))
+        return cond()
+
     def cls(self, name):
         c = getattr(self.X, name)
         if not issubclass(c, self.X.JsonRpcException):
@@ -940,6 +1084,8 @@ class Env:
             return self.run_from(c)
         if k == "ctor":
             return self.run_ctor(c)
+        if k == "session":
+            return self.run_session(c)
         return self.run_srv(c)
 
     def run_tables(self):
@@ -983,18 +1129,13 @@ class Env:
                 err = _t.SimpleNamespace(code=c["code"], message=msg, data=payload)
             return self.obs_exc(self.X.JsonRpcException.from_error(err))
         self.seq += 1
-        rid = f"q{self.seq}"
-        p = self.req.protocol
-        fut = p.send_request("c07/ask", {"n": self.seq}, msg_id=rid)
+        ask = Ask(self, c.get("req", "future"), "c07/ask", {"n": self.seq}, f"q{self.seq}")
         try:
-            self.feed(p, self.error_frame(rid, c["code"], msg, payload, c.get("null", False)))
+            self.feed(ask.proto, self.error_frame(ask.rid, c["code"], msg, payload, c.get("null", False)))
         except Exception as ex:
-            inflight(p).pop(rid, None)
-            return ["raise", type(ex).__name__] if fut.done() else ["pending", type(ex).__name__][:1]
-        if not fut.done():
-            inflight(p).pop(rid, None)
-            return ["pending"]
-        return self.obs_exc(fut.exception(timeout=0))
+            if ask.done() and ask.task is None:
+                return ["raise", type(ex).__name__]
+        return ask.obs()
 
     def run_ctor(self, c):
         cls = self.cls(c["cls"])
@@ -1037,7 +1178,25 @@ class Env:
             raise failure
         return r
 
-    def run_srv(self, c):
+    def run_session(self, c):
+        """Several requests one after the other on ONE connection (real framed byte streams, the real read
+        loops on both ends): each must get the reply it would get alone."""
+        pipes = self.open_streams()
+        out, dead = [], False
+        try:
+            for m in c["msgs"]:
+                try:
+                    o = self.run_srv(m, pipes, wait=0.3 if dead else 3.0)
+                except Exception as ex:
+                    o = ["raise", type(ex).__name__]
+                if o[0] == ["none"]:
+                    dead = True        # nothing came back: do not wait long for the rest of the session
+                out.append(o)
+        finally:
+            self.close_streams(pipes)
+        return out
+
+    def run_srv(self, c, pipes=None, wait=3.0):
         sp, rp = self.srv.protocol, self.req.protocol
         self.seq += 1
         key = f"k{self.seq}"
@@ -1070,36 +1229,32 @@ class Env:
             need = []            # rpc: a constructor that raises is "any other exception"
         else:
             need = None
-        stream = bool(c.get("stream")) and c["p"] == "ok" and not c.get("typed")
-        pipes = self.open_streams() if stream else None
-        # the requester writes the request frame ...
-        n_r = len(self.rw.frames)
-        if c["p"] == "badv" or c.get("typed"):     # method and params are patched into the frame below
-            fut = rp.send_request("c07/ask", {"key": key}, msg_id=rid)
-        elif method == "workspace/executeCommand":
-            fut = rp.send_request(method, self.types.ExecuteCommandParams(command=params["command"],
-                                                                          arguments=params["arguments"]), msg_id=rid)
-        else:
-            fut = rp.send_request(method, params, msg_id=rid)
-        req_body = None if stream else json.loads(body_of(self.rw.frames[n_r]))
-        if stream:
-            pass
-        elif c["p"] == "badv" and not c.get("typed"):
-            req_body["method"] = method
-            req_body["params"] = [{"textDocument": 5}, {"position": {"line": "x"}}, [1, 2], "str"][c.get("shape", 0)]
-        if stream:
-            pass
-        elif c.get("typed"):      # a standard method with a registered params type: the member as the case says
-            req_body["method"] = c["typed"]
-            tp = c.get("tparams", VALID_POSITION)
-            if isinstance(tp, str) and tp == "absent":
+        own_pipes = pipes is None and bool(c.get("stream"))
+        if own_pipes:
+            pipes = self.open_streams()
+        stream = pipes is not None
+
+        def patch(req_body):
+            """What the peer sends instead of the well-formed frame the requester API wrote."""
+            if c["p"] == "badv" and not c.get("typed"):
+                req_body["method"] = method
+                req_body["params"] = [{"textDocument": 5}, {"position": {"line": "x"}}, [1, 2], "str"][c.get("shape", 0)]
+            if c.get("typed"):      # a standard method with a registered params type: the member as the case says
+                req_body["method"] = c["typed"]
+                tp = c.get("tparams", VALID_POSITION)
+                if isinstance(tp, str) and tp == "absent":
+                    req_body.pop("params", None)
+                else:
+                    req_body["params"] = tp
+            elif (c.get("noparams") or absent) and c["p"] != "badv" and method != "workspace/executeCommand":
                 req_body.pop("params", None)
-            else:
-                req_body["params"] = tp
-        elif (c.get("noparams") or absent) and c["p"] != "badv" and method != "workspace/executeCommand":
-            req_body.pop("params", None)
-        if c["p"] == "bado" and not c.get("typed") and not stream:
-            req_body["c07extra"] = 1
+            if c["p"] == "bado" and not c.get("typed"):
+                req_body["c07extra"] = 1
+            return req_body
+        patched = (c["p"] in ("badv", "bado") or bool(c.get("typed")) or
+                   ((c.get("noparams") or absent) and method != "workspace/executeCommand"))
+        if stream and patched:
+            pipes[4].patch = patch
         blocker = None
         if c["cancel"]:
             if kind == "async":
@@ -1107,7 +1262,25 @@ class Env:
             elif kind == "thread":           # keep the single worker busy so that the job stays queued
                 blocker = self.threading.Event()
                 self.srv.thread_pool.submit(blocker.wait, 10)
+        # the requester writes the request frame ...
+        n_r = len(self.rw.frames)
         n_s = len(self.sw.frames)
+        rshape = c.get("req", "future")
+        try:
+            if c["p"] == "badv" or c.get("typed"):     # method and params are patched into the frame
+                ask = Ask(self, rshape, "c07/ask", {"key": key}, rid)
+            elif method == "workspace/executeCommand":
+                ask = Ask(self, rshape, method, self.types.ExecuteCommandParams(command=params["command"],
+                                                                                arguments=params["arguments"]), rid)
+            else:
+                ask = Ask(self, rshape, method, params, rid)
+            req_body = None if stream else patch(json.loads(body_of(self.rw.frames[n_r])))
+        except BaseException:
+            if blocker is not None:
+                blocker.set()
+            if own_pipes:
+                self.close_streams(pipes)
+            raise
         try:
             # ... the server reads it ...
             if stream:        # its real read loop already has the bytes; the cancel travels the same way
@@ -1135,11 +1308,11 @@ class Env:
             if stream:
                 # until the requester's future completes; once the reply is on the wire the requester's
                 # read loop gets a bounded number of turns to take it
-                self.spin(lambda: fut.done() or len(replies()) > 0, timeout=3.0)
-                self.spin(lambda: fut.done(), timeout=0.25)
+                self.spin(lambda: ask.done() or len(replies()) > 0, timeout=wait)
+                self.spin(ask.done, timeout=0.25)
             else:
                 # answered, or the done-callback has run (it always ends by dropping the in-flight entry)
-                self.spin(lambda: len(replies()) > 0 or rid not in inflight(sp), timeout=3.0)
+                self.spin(lambda: len(replies()) > 0 or rid not in inflight(sp), timeout=wait)
                 if not replies():
                     self.spin(lambda: len(replies()) > 0, timeout=0.05)
         finally:
@@ -1147,10 +1320,11 @@ class Env:
                 blocker.set()
             self.gates.pop(key, None)
             self.plan.pop(key, None)
-            if pipes is not None:
+            if own_pipes:
                 self.close_streams(pipes)
         rs = replies()
         if len(rs) != 1:
+            ask.obs()
             forget(rp, rid)
             return [["none"] if not rs else ["many", len(rs)], ["pending"]]
         o, raw = rs[0]
@@ -1172,11 +1346,7 @@ class Env:
                 self.feed(rp, raw)
             except Exception:
                 pass
-        if not fut.done():
-            forget(rp, rid)
-            return [ro, ["pending"]]
-        ex = fut.exception(timeout=0)
-        return [ro, ["result"] if ex is None else self.obs_exc(ex)]
+        return [ro, ask.obs()]
 
 
 PROPERTY = C07
